@@ -154,6 +154,9 @@ def cmdStep (cls opts : String) (ops : List String) : String :=
       for op in ops do
         if op == "enroll" then
           s := s.enroll; out := out ++ ["-"]
+        else if op == "opts" then
+          -- `Stream.stream_options()` called directly: one more (identical) options row in the flow
+          s := s.pushRows [s.optionsRow]; out := out ++ ["-"]
         else if op == "flush" then
           let (fl, f) := s.flow.toStreamFrame
           s := { s with flow := fl }; out := out ++ [fr f]
